@@ -3,6 +3,7 @@ import LlgoVerif.Model.Layout
 /-! Line-protocol driver for C08.
 
     `q  <target> <term>`        → `a=<size>,<align>,<offs> b=<size>,<align>,<offs> c=<size>,<align>,<fieldalign>,<offs>`
+    `qf`, `mbf`                 → as `q`, `mb` with the descriptor alignment table of fixes/C08-1.diff
     `mb <target> <key> <elem>`  → `ks=<n> es=<n> bs=<n> a=… b=… c=…`  (the three computations on the bucket struct)
     `cl <target> <term>`        → `c=<size>,<align>,<offs>` (natural C layout) or `notc`
     `pf <target> <term>`        → `<padFree t> <padFree (toRaw t)>`
@@ -99,10 +100,11 @@ def offsStr (isS : Bool) (o : List Nat) : String :=
 
 def layStr (isS : Bool) (l : Layout) : String := s!"{l.size},{l.align},{offsStr isS l.offsets}"
 
-def three (tg : Target) (t : GoType) : String :=
+/-- `fixed` selects the descriptor alignment table with fixes/C08-1.diff applied -/
+def three (fixed : Bool) (tg : Target) (t : GoType) : String :=
   let s := isStruct t
-  let c := abiTable tg t
-  s!"a={layStr s (goSizes tg t)} b={layStr s (llvmLayout tg t)} c={c.size},{c.align},{abiFieldAlign tg (toRaw t)},{offsStr s c.offsets}"
+  let c := if fixed then abiTableFixed tg t else abiTable tg t
+  s!"a={layStr s (goSizes tg t)} b={layStr s (llvmLayout tg t)} c={c.size},{c.align},{c.align},{offsStr s c.offsets}"
 
 def showTarget (t : Target) : String :=
   s!"ptr={t.ptrSize} gc={t.gcStyle} word={t.wordSize} maxalign={t.maxAlign} i8={t.llI8} i16={t.llI16} i32={t.llI32} i64={t.llI64} f32={t.llF32} f64={t.llF64} p={t.llPtr} wf={wfTarget t} abiok={abiOK t}"
@@ -111,13 +113,23 @@ def handle (line : String) : String :=
   match fields line with
   | ["q", tgs, ts] =>
     match parseTarget tgs, parseTerm ts with
-    | some tg, some t => three tg t
+    | some tg, some t => three false tg t
+    | _, _ => "bad-op"
+  | ["qf", tgs, ts] =>
+    match parseTarget tgs, parseTerm ts with
+    | some tg, some t => three true tg t
     | _, _ => "bad-op"
   | ["mb", tgs, ks, vs] =>
     match parseTarget tgs, parseTerm ks, parseTerm vs with
     | some tg, some k, some v =>
       let (a, b, c) := mapSizes tg k v
-      s!"ks={a} es={b} bs={c} " ++ three tg (mapBucket tg (toRaw k) (toRaw v))
+      s!"ks={a} es={b} bs={c} " ++ three false tg (mapBucket tg (toRaw k) (toRaw v))
+    | _, _, _ => "bad-op"
+  | ["mbf", tgs, ks, vs] =>
+    match parseTarget tgs, parseTerm ks, parseTerm vs with
+    | some tg, some k, some v =>
+      let (a, b, c) := mapSizes tg k v
+      s!"ks={a} es={b} bs={c} " ++ three true tg (mapBucket tg (toRaw k) (toRaw v))
     | _, _, _ => "bad-op"
   | ["cl", tgs, ts] =>
     match parseTarget tgs, parseTerm ts with
